@@ -357,6 +357,7 @@ type FuncResult struct {
 	Assumptions []*Term
 	Unsupported string
 	Params      []string
+	Shows       map[string]*Term
 }
 
 func (v *Verifier) VerifyFunc(c *Contract) (res *FuncResult) {
@@ -440,6 +441,16 @@ func (v *Verifier) VerifyFunc(c *Contract) (res *FuncResult) {
 		for _, e := range c.Ensures {
 			t := ex.evalClause(fr, r.st, r.pc, e, rvals)
 			ex.oblige(fr, "post", e.Text, fn.Pos(), r.pc, t, e.Props)
+		}
+		for si, sh := range c.Shows {
+			env := &clauseEnv{args: fr.params, results: rvals, pre: fr.entry}
+			v := ex.evalClauseEnv(fr, r.st, r.pc, sh, env)
+			for li, l := range toLeaves(v) {
+				if res.Shows == nil {
+					res.Shows = map[string]*Term{}
+				}
+				res.Shows[fmt.Sprintf("show$r%d$%d.%d$%s", len(res.Shows), si, li, mangle(truncate(sh.Text, 40)))] = l
+			}
 		}
 		if len(r.st.defers) != 0 {
 			panic(unsupported("pending defers at return"))
